@@ -1147,3 +1147,28 @@ Proof. vm_compute. repeat split; reflexivity. Qed.
    (every document written in the session: sets only grow), nothing changes at all: *)
 Lemma ens_union_same_members : forall c e, incl e c -> forall x, In x (ens_union c e) <-> In x c.
 Proof. intros c e H x. rewrite ens_union_in. split; [intros [A|A]; auto | auto]. Qed.
+
+(* ------------------------------------------------------------------ Part 7: the live register wins entry by entry *)
+(* merging an archived record into a live one never changes an entry the live record has -- whatever
+   its value, an explicit 0 included (a coefficient revised to zero after the dump stays zero) *)
+Theorem corr_merge_live_wins : forall arch c v r,
+  dget uid_eqb c v = Some r -> dget uid_eqb (corr_merge c arch) v = Some r.
+Proof. exact corr_merge_keeps. Qed.
+
+(* z1, z2 dependent complex numbers, all four coefficients 0.5 when the archive is written; then the
+   pair is revised to (0.25, 0, 0, -0.5): the cross terms are EXPLICIT zeros, rr is another value;
+   reading the older document (and Archive.copy of the written archive) with z1, z2 alive leaves every
+   coefficient as revised *)
+Open Scope string_scope.
+Definition hist_zero : list op :=
+  [ODeclComplex (Some "z1") 5 6 (-1) false; ODeclComplex (Some "z2") 3 8 (-1) false; OSetCorrC 0 1 (4, 4, 4, 4);
+   OArchive; OAdd 0 [("z1", 0%nat); ("z2", 1%nat)]; OWrite 0 FJson; OSetCorrC 0 1 (2, 0, 0, -4)].
+Close Scope string_scope.
+Lemma live_zero_wins :
+  let st := run (init_state 1) hist_zero in
+  let rd := fst (step st (ORead 0)) in let cp := fst (step st (OCopy 0)) in
+  snd (step st (ORead 0)) = OutOk /\ snd (step st (OCopy 0)) = OutOk /\
+  corr_of st (1, 1) (1, 4) = Some 0 /\ corr_of st (1, 2) (1, 3) = Some 0 /\
+  corr_of st (1, 1) (1, 3) = Some 2 /\ corr_of st (1, 2) (1, 4) = Some (-4) /\
+  s_leaves (st_ses rd) = s_leaves (st_ses st) /\ s_leaves (st_ses cp) = s_leaves (st_ses st).
+Proof. vm_compute. repeat split; reflexivity. Qed.
